@@ -502,7 +502,9 @@ func c16Verify(a vh.Args, o *vh.Oracle, r *vh.Result, c *c16Case) error {
 			res = "other"
 		}
 	} else {
-		s, err := lsLocalStore(dir, c.Unc, c.Skip)
+		// the base directory as users spell it: clean, with a trailing slash, with a "./" detour
+		spelled := dir + []string{"", "/", "/./"}[(c.N+len(c.Tree))%3]
+		s, err := lsLocalStore(spelled, c.Unc, c.Skip)
 		if err != nil {
 			return err
 		}
@@ -590,8 +592,7 @@ func c16Verify(a vh.Args, o *vh.Oracle, r *vh.Result, c *c16Case) error {
 		}
 	}
 	for id := range reported {
-		_, isDir := dirCanon[id]
-		if _, ok := expect[id]; !ok && !isDir {
+		if _, ok := expect[id]; !ok {
 			fail("verify/reports-valid", "reported as invalid but the canonical file is valid or absent: "+id)
 		}
 	}
@@ -616,8 +617,6 @@ func c16Verify(a vh.Args, o *vh.Oracle, r *vh.Result, c *c16Case) error {
 		_, bad := expect[id]
 		if !c.Repair {
 			fail("verify/removes-without-repair", "verify without repair removed "+e.Path)
-		} else if e.Kind == "d" && isC && reported[id] != "" {
-			// an (empty) directory under a chunk's canonical name, reached through an alias name
 		} else if !isC || !bad {
 			fail("verify/repair-removes-valid", "verify -r removed something that is not an invalid own-format chunk: "+e.Path)
 		}
